@@ -31,8 +31,8 @@ static const char *image, *scratch;
 static sqfs_super_t super;
 static sqfs_file_t *imgfile;
 static sqfs_compressor_t *uncmp;
-static sqfs_u64 inode_refs[4096], file_refs[4096];
-static size_t n_inode_refs, n_file_refs;
+static sqfs_u64 inode_refs[4096], file_refs[4096], dir_refs[4096];
+static size_t n_inode_refs, n_file_refs, n_dir_refs;
 static sqfs_u64 meta_blocks[2][512];
 static size_t n_meta[2];
 static unsigned long nviol;
@@ -265,6 +265,33 @@ static uint64_t dirrd_op(void *obj, uint64_t code)
 	return h;
 }
 
+/* directory reader that keeps the inode number -> reference cache needed for "." and ".." entries */
+static void *dirdot_create(int which) { (void)which; return sqfs_dir_reader_create(&super, uncmp, imgfile, SQFS_DIR_READER_DOT_ENTRIES); }
+static uint64_t dirdot_op(void *obj, uint64_t code)
+{
+	sqfs_dir_reader_t *dr = obj;
+	sqfs_inode_generic_t *ino = NULL;
+	sqfs_dir_reader_state_t st;
+	sqfs_dir_node_t *ent;
+	uint64_t h = H0;
+	sqfs_u64 ref;
+	int ret, n = 0;
+	if (n_dir_refs == 0) return 0;
+	/* mostly directories from the far end of the inode table (references that need more than 32 bits) */
+	ref = dir_refs[(code % 4) ? n_dir_refs - 1 - ((code >> 8) % (n_dir_refs < 40 ? n_dir_refs : 40)) : (code >> 8) % n_dir_refs];
+	ret = sqfs_dir_reader_get_inode(dr, ref, &ino);
+	h = HV(h, ret);
+	if (ret) return h;
+	ret = sqfs_dir_reader_open_dir(dr, ino, &st, 0);
+	h = HV(h, ret);
+	while (ret == 0 && n < 6) {
+		ret = sqfs_dir_reader_read(dr, &st, &ent);
+		if (ret == 0) { h = H(h, ent->name, ent->size + 1); h = HV(h, st.ent_ref); sqfs_free(ent); ++n; }
+	}
+	sqfs_free(ino);
+	return h;
+}
+
 static void *data_create(int which)
 {
 	sqfs_data_reader_t *d = sqfs_data_reader_create(imgfile, super.block_size, uncmp, 0);
@@ -448,12 +475,20 @@ static int open_image(void)
 			if (n_file_refs < 4000) file_refs[n_file_refs++] = inode_refs[i];
 		} else if ((ino->base.type == SQFS_INODE_DIR || ino->base.type == SQFS_INODE_EXT_DIR) &&
 			   sqfs_dir_reader_open_dir(dr, ino, &st, SQFS_DIR_OPEN_NO_DOT_ENTRIES) == 0) {
+			if (n_dir_refs < 4000) dir_refs[n_dir_refs++] = inode_refs[i];
 			while (sqfs_dir_reader_read(dr, &st, &ent) == 0) {
 				if (n_inode_refs < 4000) inode_refs[n_inode_refs++] = st.ent_ref;
 				sqfs_free(ent);
 			}
 		}
 		sqfs_free(ino);
+	}
+	/* ascending by reference: the last ones lie deepest in the inode table */
+	for (size_t i = 1; i < n_dir_refs; ++i) {
+		sqfs_u64 v = dir_refs[i];
+		size_t j = i;
+		while (j > 0 && dir_refs[j - 1] > v) { dir_refs[j] = dir_refs[j - 1]; --j; }
+		dir_refs[j] = v;
 	}
 	(void)root;
 	return 0;
@@ -490,6 +525,7 @@ int main(int argc, char **argv)
 	if (!strcmp(argv[1], "id")) { k.name = "id"; k.create = id_create; k.op = id_op; }
 	if (!strcmp(argv[1], "meta")) { k.name = "meta"; k.create = meta_create; k.op = meta_op; }
 	if (!strcmp(argv[1], "dir")) { k.name = "dir"; k.create = dirrd_create; k.op = dirrd_op; }
+	if (!strcmp(argv[1], "dir-dot")) { k.name = "dir-dot"; k.create = dirdot_create; k.op = dirdot_op; }
 	if (!strcmp(argv[1], "data")) { k.name = "data"; k.create = data_create; k.op = data_op; }
 	if (!strcmp(argv[1], "xattr-reader")) { k.name = "xattr-reader"; k.create = xr_create; k.op = xr_op; }
 	if (!strcmp(argv[1], "file")) { k.name = "file"; k.create = file_create; k.op = file_op; }
